@@ -20,7 +20,9 @@ CLAIMED = {
          'predefined and user parameters - with every measured value, reference (a) value and parameter value a free complex symbol, the coefficient matrix and right-hand side that the real vnacal_new_add_* .. vnacal_new_solve hand to the '
          'linear solver consist exactly of the documented residual cells (soundness and completeness), and the stored error terms are the solver result with the unity term inserted, leakage terms equal to the documented averages and the E12 terms '
          'equal to the documented conversion.  APPLY side: fill_t8/u8/t16/u16/ue14 build exactly A = Ts - M\' Tx, B = M\' Tm - Ti (T), A = Ux M\' + Us, B = Um M\' + Ui (U), per-column UE14, for all terms free; _vnacal_layout places the blocks as documented.  '
-         'With C19 (the solvers are exact) calibrate-then-apply recovers S over the complex field; an exact rational end-to-end run per configuration witnesses determinacy.  Rounding and conditioning are outside.',
+         'With the measurement-error model on (sigma_nf, sigma_tr free positive symbols, sqrt uninterpreted) every assembled row is the documented residual times 1/sqrt(sigma_nf^2 + sigma_tr^2 |m|^2) of its own measurement cell.  vnacal_apply_m at any selection of the '
+         'calibration frequencies (1-port types, 3-frequency calibrations) returns S satisfying the documented equation with the error terms of THAT frequency.  With C19 (the solvers are exact) calibrate-then-apply recovers S over the complex field; an exact rational '
+         'end-to-end run per configuration witnesses determinacy.  Rounding and conditioning are outside.',
     note='Trusted: clang front end, vf/irparse.py / irsym.py / irx.py (interpreter, libc model), z3, the oracles written from vnacal_new(3) and vnacal_layout.h.  Linear solvers are hooked on the calibrate side (C19 covers LU; QR not covered).  '
          'Outside: TRL / unknown parameters, measurement-error weighting, several frequencies, interpolation in apply, > 3 ports, measure-zero sets where free values coincide (listed per path).',
     design='DESIGN.md section 3 / C01', cmd='python3-vt ./check C01', engine='irx+z3'),
@@ -58,13 +60,14 @@ CLAIMED = {
     note='Trusted: as C01 plus the re-description generators of props/calcfg.py.  Outside: renumbering of the VNA ports, E12 vs UE14 on the apply side, vector / unknown parameters, rounding.',
     design='DESIGN.md section 3 / C17', cmd='python3-vt ./check C17', engine='irx+z3'),
  'C03': dict(
-    technique='CBMC 6.11 memory-safety / UB / leak instrumentation (bounds, pointer validity, use-after-free, double free, overflow, shifts, library assert(), unwinding assertions, --memory-leak-check) on the bounded API-history harnesses of the object families (clang-14 IR -> ll2c -> CBMC, and CBMC native for vnaproperty)',
-    text='Bounded proof with CBMC: along every bounded API history of the family harnesses - vnadata (plans of 1..5 operations with symbolic indices -1..n+1), vnaproperty (API steps from 12 trees, containers '
-         'with symbolic subscripts/keys, quote_key on arbitrary bytes), calibration slot table (inductive step from any table), parameter handles, vnadata_convert (all type pairs), the Touchstone loader on short '
-         'inputs, single allocation faults in vnadata, and number formatting for all precisions - the real code touches only memory it owns, executes no undefined behaviour CBMC instruments, trips no library assert(), '
-         'and leaves nothing allocated after the matching free; invalid arguments are answered with the documented failure value.',
-    note='Trusted: as the family harnesses. NOT covered: vnacal_new add/solve/apply histories, save/load I/O paths, NPD and YAML (libyaml) code, histories longer than the stated depths.',
-    design='DESIGN.md section 4 / C03'),
+    technique='(i) CBMC 6.11 memory-safety / UB / leak instrumentation (bounds, pointer validity, use-after-free, double free, overflow, shifts, library assert(), unwinding assertions, --memory-leak-check) on the bounded API-history harnesses of the object families (clang-14 IR -> ll2c -> CBMC, and CBMC native for vnaproperty); (ii) the checked object table of the whole-flow symbolic interpreter vf/irx.py (heap, stack incl. VLAs, globals; end-of-flow leak accounting incl. libyaml objects) on complete API flows with symbolic doubles; counterexamples replayed natively (gcc / clang ASan + UBSan, valgrind for uninitialised reads)',
+    text='Bounded proof: (i, CBMC) along every bounded API history of the family harnesses - vnadata (plans of 1..5 operations with symbolic indices -1..n+1), vnaproperty (API steps from 12 trees, containers with symbolic subscripts/keys, quote_key on arbitrary bytes), calibration slot table '
+         '(inductive step from any table), parameter handles, vnadata_convert (all type pairs), the Touchstone loader on short inputs, single allocation faults in vnadata, number formatting for all precisions - the real code touches only memory it owns, executes no undefined behaviour CBMC instruments, '
+         'trips no library assert(), leaves nothing allocated after the matching free, and answers invalid arguments with the documented failure value.  (ii, irx) on ~190 complete flows - vnacal_new_alloc / add_* / solve / add_calibration / apply / free for the C01 configuration families, '
+         'solve_auto with an unknown parameter on every branch outcome, vnadata save -> load incl. refused combinations, the parsers on generated spellings, vnacal_save -> vnacal_load - for EVERY value of the symbolic doubles on every explored path: no access outside an owned object, '
+         'no use after free / double free / NULL dereference / read of never-written memory / failed library assert, nothing allocated after the matching frees.',
+    note='Trusted: as the family harnesses; vf/irx.py object table and libc model; vf/yamlmodel.py.  NOT covered: histories longer than the stated depths, allocation faults outside vnadata, arithmetic UB in the whole-flow part (objects are checked, not overflow / shifts), I/O errors.',
+    design='DESIGN.md section 3 / C03', cmd='python3-vt ./check C03'),
  'C04': dict(
     technique='symbolic interpretation of the real vnaconv_*.c (clang-14 IR -> vf/irsym.py, exact rational functions over the reals) with z3 (QF_NRA) deciding the port relations of vnaconv(3); models replayed numerically on the gcc-compiled function',
     text='Exact algebraic proof per function (no sampling): for all 72 two-port conversions and the 9 two-port input-impedance functions, with every matrix entry and reference '
